@@ -200,6 +200,12 @@ def record_case(seed):
         for r, c in mask:
             m[r, c] = True
     thr = float(thr_rows[0][0]) if thr_scalar else np.array(thr_rows, float)
+    neartie = kind == 'detect' and rng.random() < 0.25
+    if neartie:
+        # float32 image with a float64 threshold lying a hair below pixel values: those pixels ARE strictly above it.
+        # In the model all values are doubled and the threshold is 2*t - 1 (any number strictly between t - 1/2 and t).
+        data = data.astype(np.float32)
+        thr = (np.float64(thr_rows[0][0]) - 1e-9) if thr_scalar else (np.array(thr_rows, dtype=np.float64) - 1e-9)
     if kind == 'finder':
         from photutils.segmentation import SourceFinder
         from photutils.utils.exceptions import NoDetectionsWarning
@@ -214,6 +220,9 @@ def record_case(seed):
                 got = {'raised': True, 'exc': repr(e)}
     else:
         got = call_detect(data, thr, npix, conn, m)
+    if neartie:
+        rows = [[(v * 2 if abs(v) < INF else v) for v in r] for r in rows]
+        thr_rows = [[2 * v - 1 for v in r] for r in thr_rows]
     rec = {'id': seed, 'kind': kind, 'data': rows, 'thr': thr_rows, 'nan': nan, 'mask': mask, 'conn': conn, 'npix': npix,
            'raised': got['raised'], 'none': got.get('none', False), 'warned': got.get('warned', False),
            'out': got.get('out', [[0]]), 'labels': got.get('labels', []), 'slices': got.get('slices', []), 'areas': got.get('areas', [])}
